@@ -46,6 +46,7 @@ type FuncContract struct {
 	Props     []string // property ids this contract serves (prop C10,C23)
 	InlineMax int
 	AtCall    map[string][]Clause
+	Callbacks map[string][]string // function-typed parameter -> ghost names its calls are assumed to preserve
 	DeadPaths int // number of path conditions the contracts make infeasible (reviewed)
 }
 
@@ -80,7 +81,7 @@ func NewContractSet() *ContractSet {
 
 var clauseKW = map[string]bool{"requires": true, "ensures": true, "modifies": true, "loop": true, "lock-balanced": true,
 	"terminates": true, "thin": true, "nopanic": true, "mode": true, "params": true, "prop": true, "pure": true, "noinline": true, "trusted": true,
-	"at-call": true, "nodeadlock": true, "inline-all": true, "dead-paths": true}
+	"at-call": true, "nodeadlock": true, "inline-all": true, "dead-paths": true, "callback": true}
 
 // ParseContractFile reads //@ lines. pkgPath is the package the file belongs to ("" for dep files,
 // which must then use full names "pkgpath.Func").
@@ -290,6 +291,18 @@ func (cs *ContractSet) ParseContractFile(path, pkgPath string) error {
 					cur.AtCall = map[string][]Clause{}
 				}
 				cur.AtCall[f[1]] = append(cur.AtCall[f[1]], c)
+			case "callback":
+				// callback <param> preserves $g1, $g2: ASSUMPTION that calls of the function-typed
+				// parameter <param> leave the named ghost state unchanged (everything else is havocked)
+				if len(f) < 4 || f[2] != "preserves" {
+					return fmt.Errorf("%s:%d: callback <param> preserves $ghost, ...", path, l.n)
+				}
+				if cur.Callbacks == nil {
+					cur.Callbacks = map[string][]string{}
+				}
+				for _, g := range strings.Fields(strings.ReplaceAll(strings.Join(f[3:], " "), ",", " ")) {
+					cur.Callbacks[f[1]] = append(cur.Callbacks[f[1]], g)
+				}
 			case "dead-paths":
 				n, err := strconv.Atoi(rest)
 				if err != nil {
